@@ -350,6 +350,9 @@ def emplace(em, n, c, objp, et, real):
         return '%s_push_back(%s, %s)' % (c, objp, value_arg(em, et, real[0]))
     if et.name in PRIM_C and len(real) == 1:
         return '%s_push_back(%s, (%s)(%s))' % (c, objp, em.ctype(et), em.Eval(real[0]))
+    if et.name == 'std::pair' and len(real) == 2:
+        tmp = em.new_temp(em.ctype(et))
+        return '(%s.first = %s, %s.second = %s, %s_push_back(%s, %s))' % (tmp, value_arg(em, et.args[0], real[0]), tmp, value_arg(em, et.args[1], real[1]), c, objp, tmp)
     rec = em.ix.records.get(et.key())
     if rec is None: em.fail(n, 'emplace_back into ' + et.key())
     cands = []
